@@ -367,6 +367,15 @@ class Linker:
                 )
             self.dst.add_image(image)
 
+        # A section can live at one address only:
+        placed = [
+            section.name
+            for image in self.dst.images
+            for section in image.sections
+        ]
+        if len(placed) != len(set(placed)):
+            raise CompilerError("A section is placed more than once")
+
     def get_symbol_value(self, symbol_id):
         """Get value of a symbol from object or fallback"""
         # Lookup symbol:
